@@ -3,6 +3,7 @@ import PharmpyModel.C01.Spec
 import PharmpyModel.C01.Advan
 import PharmpyModel.C01.Omega
 import PharmpyModel.C01.Des
+import PharmpyModel.C01.Rates
 open Pharmpy Pharmpy.C01
 
 /-
@@ -19,6 +20,7 @@ open Pharmpy Pharmpy.C01
     (wiring ADVANn)             → (codeObs specObs codeDose specDose)
     (omegaparse rec …)          → per record (ok (exact|sq fix same (inits…)) …) | (err kind)     model of OmegaRecord.parse
     (omegacov rec …)            → ((exact|sq n fix (lower triangle…)) …) | (err kind)            covariance blocks after SAME
+    (findrates ncomps (name …))   → ((from to name) …) | (err raises)      model of _find_rates (exact-match recogniser)
     (des ((mono coef (amt …)) …) …)   → ((flows (from to mono coef divisor) …) (rest ((mono coef) …) …) (safe|unsafe class …))   model of to_compartmental_system
       rec := (diag (v reps sd var fix) …) | (block n sd corr chol fix (v reps) …) | (same);  v := p/q
 
@@ -285,6 +287,13 @@ def handle (req : Sexp) : Sexp :=
     match dprog? p with
     | some p => desS p
     | none => bad
+  | .list [.atom "findrates", n, names] =>
+    match n.asNat?, symList? names with
+    | some n, some names =>
+      match Rates.findRates n names with
+      | some l => .list (l.map (fun r => .list [Sexp.ofNat r.1, Sexp.ofNat r.2.1, .atom r.2.2]))
+      | none => .list [.atom "err", .atom "raises"]
+    | _, _ => bad
   | .list [.atom "entries"] =>
     .list (specEntries.map (fun p => .list [.atom p.1, .atom p.2]))
   | _ => bad
